@@ -629,7 +629,7 @@ func largeScenarios(rd *vlib.Rand, pq bool) []Case {
 	}
 	out := []Case{scenario(c, n, nil, 3)} // unchanged: every element once, then exhausted (for ever)
 	for _, mid := range mids {
-		k := 1 + rd.Intn(n)
+		k := 1 + rd.Intn(n-1) // inside the snapshot: under way and not exhausted
 		after := 3
 		if rd.Chance(1, 3) {
 			after = n - k + 2
